@@ -33,13 +33,15 @@ FAMILIES = ["daily", "billing", "hourly", "hourly_solar", "caltrack"]
 #   hourly_ghi_ignored   model told to ignore GHI, data carries a GHI column (fit and every predict emit a mismatch warning)
 #   hourly_shared_settings   ONE settings object (explicit train_features + a supplemental column) serves every model built; the
 #                            explored model's meter lacks the supplemental column, the other meter (fit_other) has it
-VARIANTS = ["daily_poorfit", "billing_poorfit", "hourly_poorfit", "hourly_ghi_ignored", "hourly_shared_settings"]
+VARIANTS = ["daily_poorfit", "billing_poorfit", "hourly_poorfit", "hourly_ghi_ignored", "hourly_shared_settings", "hourly_supp_categorical"]
+#   hourly_supp_categorical  the model is configured with a supplemental CATEGORICAL column and its baseline carries it; reporting sets come
+#                            with and without the column (the ones without are refused - and must leave the model as it was)
 _SHARED = {}
 
 
 def base_family(family):
     return {"daily_poorfit": "daily", "billing_poorfit": "billing", "hourly_poorfit": "hourly",
-            "hourly_ghi_ignored": "hourly_solar", "hourly_shared_settings": "hourly"}.get(family, family)
+            "hourly_ghi_ignored": "hourly_solar", "hourly_shared_settings": "hourly", "hourly_supp_categorical": "hourly"}.get(family, family)
 ZONE = "America/Chicago"
 
 
@@ -79,6 +81,8 @@ def new_model(family):
         return em.HourlyModel(settings={"seed": 7, "cvrmse_threshold": 1e-6, "pnrmse_threshold": 1e-6})
     if family == "hourly_ghi_ignored":
         return em.HourlyModel(settings={"seed": 7, "train_features": ["temperature"]})
+    if family == "hourly_supp_categorical":
+        return em.HourlyModel(settings={"seed": 7, "supplemental_categorical_columns": ["mode"]})
     if family == "hourly_shared_settings":
         if "obj" not in _SHARED:
             from opendsm.eemeter.models.hourly import settings as hs
@@ -172,6 +176,8 @@ def run_graph(case):
     viol = []
     key0 = {"family": family}
     frame = baseline_frame(family, days, seed=0)
+    if family == "hourly_supp_categorical":
+        frame["mode"] = (frame.index.hour >= 8).astype(int)
     bdata = make_baseline(family, frame)
     fpb0, attrs_b0 = F.fp_attrs(bdata)
     model = fit(family, new_model(family), bdata)
@@ -216,6 +222,15 @@ def run_graph(case):
                 skipped.append(f"{opn}: data class raised {type(exc).__name__}")
                 continue
             alphabet.append((opn, opn))
+    if family == "hourly_supp_categorical":
+        import opendsm.eemeter as em
+
+        for name, start, ndays in sets[1:3]:
+            fr_m = ds.hourly_frame(start=start, days=ndays, tz=ZONE, wseed=1, seed=11)
+            fr_m["mode"] = (fr_m.index.hour >= 8).astype(int)
+            opn = f"predict:{name}_with_the_categorical_column:usage"
+            data_objs[opn] = em.HourlyReportingData(fr_m, is_electricity_data=True)
+            alphabet.insert(1, (opn, opn))
     if family == "hourly_shared_settings":
         # reporting data that carry the configured supplemental column although this model's baseline did not
         import opendsm.eemeter as em
